@@ -213,7 +213,7 @@ func treeHash(dir string) string {
 
 func workerEnv(extra ...string) []string {
 	env := []string{"PATH=" + os.Getenv("PATH"), "HOME=/root", "GODEBUG=asyncpreemptoff=1,tracebacklabels=1", "GOGC=off", "GOMAXPROCS=1", "GOTRACEBACK=all",
-		"GORACE=halt_on_error=0 exitcode=0"}
+		"GORACE=halt_on_error=0 exitcode=0 history_size=7"}
 	return append(env, extra...)
 }
 
@@ -423,10 +423,29 @@ func raceReports(stderr string) []Violation {
 		}
 		lines := strings.Split(p, "\n")
 		var tops []string
+		annotInPlugin := false
 		for i, l := range lines {
 			t := strings.TrimSpace(l)
 			if strings.HasPrefix(t, "Read at ") || strings.HasPrefix(t, "Write at ") || strings.HasPrefix(t, "Previous read at ") || strings.HasPrefix(t, "Previous write at ") || strings.HasPrefix(t, "Atomic") || strings.HasPrefix(t, "Previous atomic") {
 				// the access's own function: first frame that is not a runtime helper (map operations etc.)
+				// An access announced by a sync primitive's own annotation
+				// (WaitGroup misuse: Add racing Wait) is reported without the
+				// frame of the function that made the call: the first frame is
+				// the <autogenerated> wrapper, the next one the CALLER of the
+				// accessing function. Such a report counts when any frame of
+				// that stack is go-plugin code.
+				annot := i+2 < len(lines) && (strings.HasPrefix(strings.TrimSpace(lines[i+1]), "runtime.raceread()") || strings.HasPrefix(strings.TrimSpace(lines[i+1]), "runtime.racewrite()")) && strings.Contains(lines[i+2], "<autogenerated>")
+				if annot {
+					for j := i + 1; j < len(lines); j += 2 {
+						f := strings.TrimSpace(lines[j])
+						if f == "" {
+							break
+						}
+						if strings.HasPrefix(f, "simworld/goplugin") {
+							annotInPlugin = true
+						}
+					}
+				}
 				for j := i + 1; j < len(lines); j += 2 {
 					f := strings.TrimSpace(lines[j])
 					if f == "" {
@@ -451,7 +470,7 @@ func raceReports(stderr string) []Violation {
 			}
 			frames = append(frames, strings.TrimPrefix(f, "simworld/goplugin"))
 		}
-		if !inPlugin {
+		if !inPlugin && !annotInPlugin {
 			continue
 		}
 		sort.Strings(frames)
